@@ -10,24 +10,29 @@ from symx import tok
 import symx.harness  # noqa (puts the repo on sys.path)
 
 PROPERTY = "C18"
-FUNCTIONS = ["wannierberri.system.system_R.System_R.to_npz/from_npz/load_npz/set_R_mat/wannier_centers_red/do_at_end_of_init",
+FUNCTIONS = ["wannierberri.system.system_soc.SystemSOC.__init__/set_soc_axis/to_npz/from_npz/has_soc_R/get_system_R", "wannierberri.system.system_R.System_R.to_npz/from_npz/load_npz/set_R_mat/wannier_centers_red/do_at_end_of_init",
              "wannierberri.symmetry.point_symmetry.PointGroup.as_dict/__init__(dictionary=)/PointSymmetry.as_dict",
              "wannierberri.system.system_tb.write_tb_file/get_system_tb", "wannierberri.system.system_hr.write_hr_file/get_system_hr/write_WCC_WT_format/read_WCC_WT_format",
              "wannierberri.fourier.rvectors.Rvectors.__init__/iR0"]
-BOUNDS = dict(quick=dict(num_wann="1..4 (text), 1..3 (npz)", nR="1, 3", lattice="3 concrete generic cells", centres="symbolic", matrices="Ham (+AA) symbolic complex",
+BOUNDS = dict(quick=dict(SystemSOC="nspin 1 and 2, 1..2 orbitals per spin, spin-up on 3 and spin-down on 5 R-vectors with their own centres, SOC matrices on 3 R-vectors, "
+                         "2 concrete spin axes, 8 listing orders (one symbolic choice applied to every directory)", num_wann="1..4 (text), 1..3 (npz)", nR="1, 3", lattice="3 concrete generic cells", centres="symbolic", matrices="Ham (+AA) symbolic complex",
                          listing_order="all 120 orders of 5 property files (+ Ham); 8 enumerated orders (symbolic choice) of the full 9-file directory x both orders of the matrix files",
                          WT_centres="one symbolic centre (3 coordinates, all sign / |x|<=1e-7 branches) at every position, the other centres concrete incl. 0, 5e-8, negative"),
-              thorough=dict(num_wann="1..6 (text), 1..3 (npz)", nR="1, 3, 5", lattice="3 concrete generic cells", centres="symbolic", matrices="Ham (+AA) symbolic complex",
+              thorough=dict(SystemSOC="as quick, 1..3 orbitals, 4 spin axes", num_wann="1..6 (text), 1..3 (npz)", nR="1, 3, 5", lattice="3 concrete generic cells", centres="symbolic", matrices="Ham (+AA) symbolic complex",
                             listing_order="all 5040 x 2 orders of the 7 property files and 2 matrix files (matrix files listed after the property files in the first listing)",
                             WT_centres="as quick"))
 EXPLANATION = ("A real System_R with symbolic Wannier centres and symbolic complex Ham/AA is written by the real writers into an in-memory file model (numbers become tokens "
                "carrying their format spec) and read back by the real readers; every token read is a fresh real within half a unit of the last printed digit (exact for repr).  "
                "z3 decides per entry that what is read at [iR,m,n(,a)] is what was written there to printed precision (column / loop order, Ndegen, the convention II<->I shift of AA, "
-               "the even/odd interleave of the WT centre file), on every branch of the |x|>1e-7 tests; the order in which the directory listing returns the npz files is a symbolic permutation.")
-ASSUMPTIONS = ["AA(R=0) has zero diagonal in convention I (System_R.check_AA_diag_zero; the centres live in wannier_centers_cart)",
+               "the even/odd interleave of the WT centre file), on every branch of the |x|>1e-7 tests; the order in which the directory listing returns the npz files is a symbolic permutation.  "
+               "SystemSOC (spin-up/spin-down System_R + symbolic spin-orbit matrices, non-magnetic nspin=1 and magnetic nspin=2) is saved and re-loaded the same way: has_soc, nspin, every matrix "
+               "of the three directories, the centres, the cell and the assembled Hamiltonian H_up (+) H_down + [has_soc]*Ham_SOC of the reloaded system are those of the saved one.")
+ASSUMPTIONS = ["SystemSOC: the SOC matrices are set and set_soc_axis was called before saving (has_soc=True), the cell is set (to_npz cannot save cell=None)",
+               "AA(R=0) has zero diagonal in convention I (System_R.check_AA_diag_zero; the centres live in wannier_centers_cart)",
                "the list of R-vectors contains R=0", "_hr.dat: real_lattice is passed to the reader (the format does not hold it)",
                "use_convention_II=False / convention_II_to_I=False: the centres are passed to the reader (that variant of the file does not hold them)"]
-OUTSIDE = ["symbolic lattice (three concrete generic lattices; np.savetxt prints 19 significant digits, exact for doubles)",
+OUTSIDE = ["SystemSOC: symbolic spin axis (theta, phi concrete), magnetic space group from the cell (set_cell is called after set_soc_axis), k-space evaluation (Data_K_soc)",
+           "symbolic lattice (three concrete generic lattices; np.savetxt prints 19 significant digits, exact for doubles)",
            "'same bands and Berry curvature' is the consequence of equal lattice/centres/R-vectors/matrices and is not evaluated separately (evaluate_k is not run)",
            "symmetry groups beyond {E}, {E,I}, {E,C2z,TR,C2z*TR} on matching lattices; magnetic / structure attributes other than positions, atom_labels, magnetic_moments",
            "legacy=True npz layout; decimal rendering itself; num_wann / nR above the bounds; listing orders beyond those stated in the quick tier"]
@@ -38,8 +43,9 @@ STUBS = ["open (system_tb, system_hr): symx.tok.MemFS; float (system_hr): float(
          "replay only: system_R.glob.glob returns the real directory content in the listing order of the counterexample (the order is the input)"]
 
 import wannierberri.system.system_R as SR, wannierberri.system.system_tb as TB, wannierberri.system.system_hr as HR
-import wannierberri.system.system as SY, wannierberri.symmetry.point_symmetry as PS
+import wannierberri.system.system as SY, wannierberri.symmetry.point_symmetry as PS, wannierberri.system.system_soc as SOCM
 from wannierberri.fourier.rvectors import Rvectors
+import wannierberri.fourier.rvectors as RV
 
 LATTICES = [np.array([[2.0, 0.1, 0.0], [0.0, 2.25, 0.3], [0.2, 0.0, 2.5]]),
             np.array([[1.5, 0.0, 0.0], [0.0, 2.0, 0.0], [0.0, 0.0, 3.25]]),
@@ -130,15 +136,15 @@ class SymGlob:
        'all' - any permutation (integer-valued z3 unknowns, concretised position by position => one path per order);
        list of permutations of the sorted names - a symbolic choice among them.  decode(env) gives the listings of a model."""
 
-    def __init__(s, fs, mode, first=None):
-        s.fs, s.mode, s.first, s.calls, s.names, s.kind = fs, mode, first, 0, {}, {}
+    def __init__(s, fs, mode, first=None, shared=False):
+        s.fs, s.mode, s.first, s.calls, s.names, s.kind, s.shared = fs, mode, first, 0, {}, {}, shared      # shared: one choice of order function for every listing
 
     @staticmethod
     def _int_in(v, n):
         return z3.Or(*[v == j for j in range(n)])
 
     def glob(s, pattern):
-        names = sorted(n for n in s.fs.files if fnmatch.fnmatch(n, pattern))
+        names = sorted(n for n in s.fs.files if os.path.dirname(n) == os.path.dirname(pattern) and fnmatch.fnmatch(n, pattern))
         names = [n for n in names if "_XX_R_" not in n] + [n for n in names if "_XX_R_" in n]
         c, n = s.calls, len(names)
         s.calls += 1
@@ -146,7 +152,7 @@ class SymGlob:
         if n <= 1:
             s.kind[c] = None
             return names
-        if s.mode == "all" or c > 0:
+        if s.mode == "all" or (c > 0 and not s.shared):
             nfree = n if c > 0 else sum("_XX_R_" not in x for x in names)      # first listing: matrix files stay last (they are filtered out by name there)
             s.kind[c] = ("perm", nfree)
             p = [zvar(f"ls{c}_{i}") for i in range(nfree)]
@@ -155,8 +161,9 @@ class SymGlob:
                 Ctx.cur.assume(p[0] == s.first)
             order = [next(j for j in range(nfree) if j == nfree - 1 or bool(SymB(p[i] == j))) for i in range(nfree)]
             return [names[j] for j in order] + names[nfree:]
-        s.kind[c] = ("choice", len(s.mode))
-        ch = zvar(f"lsorder{c}")
+        cv = 0 if s.shared else c
+        s.kind[c] = ("choice", cv)
+        ch = zvar(f"lsorder{cv}")
         Ctx.cur.assume(s._int_in(ch, len(s.mode)))
         k = next(j for j in range(len(s.mode)) if j == len(s.mode) - 1 or bool(SymB(ch == j)))
         return [names[j] for j in s.mode[k](n)]
@@ -169,43 +176,43 @@ class SymGlob:
                 out.append(names)
             elif kind[0] == "perm" and f"ls{c}_0" in env:
                 out.append([names[int(env[f"ls{c}_{i}"])] for i in range(kind[1])] + names[kind[1]:])
-            elif kind[0] == "choice" and f"lsorder{c}" in env:
-                out.append([names[j] for j in s.mode[int(env[f"lsorder{c}"])](len(names))])
+            elif kind[0] == "choice" and f"lsorder{kind[1]}" in env:
+                out.append([names[j] for j in s.mode[int(env[f"lsorder{kind[1]}"])](len(names))])
             else:
                 break
         return out
 
 
-def install(mode="sorted", first=None):
+def install(mode="sorted", first=None, shared=False):
     fs = tok.MemFS()
     p = TokNp(fs)
-    for m in (SR, TB, HR, SY):
+    for m in (SR, TB, HR, SY, SOCM, RV):
         m.np = p
     TB.open = HR.open = fs.open
     HR.float = TokFloat
     TB.cprint = HR.cprint = lambda *a, **k: None
-    SR.os = MemOS(fs)
-    g = SymGlob(fs, [lambda n: list(range(n))] if mode == "sorted" else mode, first)
+    SR.os = SOCM.os = MemOS(fs)
+    g = SymGlob(fs, [lambda n: list(range(n))] if mode == "sorted" else mode, first, shared)
     SR.glob = g
     return fs, g
 
 
 # ---------------------------------------------------------------------------------------------------- building blocks
-def mk_system(mod, nw, nR, lat, mats=("Ham",), group="E", wcc=None, sym=True, structure=False):
+def mk_system(mod, nw, nR, lat, mats=("Ham",), group="E", wcc=None, sym=True, structure=False, tag=""):
     """System_R with symbolic centres and matrices (sym=False: concrete random doubles, for replay)"""
-    rng = np.random.default_rng(7 * nw + nR)
+    rng = np.random.default_rng(7 * nw + nR + len(tag))
     s = mod.System_R(silent=True)
     s.real_lattice = LATTICES[lat].copy()
     s.num_wann = nw
     iRvec = np.array(IRVECS[nR])
     if wcc is None:
-        wcc = symvec("c", (nw, 3)) if sym else rng.uniform(-1, 1, (nw, 3))
+        wcc = symvec(tag + "c", (nw, 3)) if sym else rng.uniform(-1, 1, (nw, 3))
     s.wannier_centers_cart = wcc
     s.rvec = Rvectors(lattice=s.real_lattice, iRvec=iRvec, shifts_left_red=s.wannier_centers_red)
     vals = {}
     for key in mats:
         shape = (nR, nw, nw) + ((3,) if key == "AA" else ())
-        X = symvec(key, shape, real=False) if sym else rng.uniform(-1, 1, shape) + 1j * rng.uniform(-1, 1, shape)
+        X = symvec(tag + key, shape, real=False) if sym else rng.uniform(-1, 1, shape) + 1j * rng.uniform(-1, 1, shape)
         if key == "AA":
             X[s.rvec.iR0, np.arange(nw), np.arange(nw)] = SymC.of(0) if sym else 0
         s.set_R_mat(key, X)
@@ -370,6 +377,90 @@ def case_npz(rec, nw, nR, lat, group, mats, exclude, mode, first=None, structure
     rec.explore(body, max_forks=100000)
 
 
+# ---------------------------------------------------------------------------------------------------- SystemSOC npz directory
+SOC_KEYS = {1: ["dV_soc_wann_0_0"], 2: ["dV_soc_wann_0_0", "dV_soc_wann_1_1", "dV_soc_wann_0_1", "overlap_up_down"]}
+
+
+def mk_soc(nspin, norb, lat, theta, phi, sym=True, given=None):
+    """SystemSOC from a spin-up (nR=3) and, for nspin=2, a spin-down (nR=5, other centres) System_R, symbolic SOC matrices on its own R-set, axis (theta, phi);
+    given: concrete values {name: array} (replay)"""
+    given = given or {}
+    up, cu, vu = mk_system(SR, norb, 3, lat, ("Ham", "AA"), tag="u", sym=sym, wcc=given.get("uc"))
+    vals = {"uc": cu, **{"u" + k: v for k, v in vu.items()}}
+    down = None
+    if nspin == 2:
+        down, cd, vd = mk_system(SR, norb, 5, lat, ("Ham", "AA"), tag="d", sym=sym, wcc=given.get("dc"))
+        vals.update({"dc": cd, **{"d" + k: v for k, v in vd.items()}})
+    for sysm, t in ((up, "u"), (down, "d")):
+        for k in ("Ham", "AA"):
+            if sysm is not None and t + k in given:
+                sysm.set_R_mat(k, given[t + k], reset=True)
+                vals[t + k] = given[t + k]
+    soc = SOCM.SystemSOC(system_up=up, system_down=down)
+    soc.set_pointgroup()
+    soc.rvec = Rvectors(lattice=soc.real_lattice, iRvec=np.array(IRVECS[3]), shifts_left_red=soc.wannier_centers_red)
+    rng = np.random.default_rng(11)
+    for k in SOC_KEYS[nspin]:
+        shape = (3, norb, norb) + (() if k == "overlap_up_down" else (3,))
+        X = given[k] if k in given else (symvec(k, shape, real=False) if sym else rng.uniform(-1, 1, shape) + 1j * rng.uniform(-1, 1, shape))
+        soc.set_R_mat(k, X)
+        vals[k] = X
+    soc.has_soc = True
+    soc.set_soc_axis(theta=theta, phi=phi, alpha_soc=1.0)
+    soc.set_cell(positions=[[0, 0, 0]], typat=[1], magmoms_on_axis=[1 if nspin == 2 else 0])
+    return soc, vals
+
+
+def soc_hamiltonian(soc):
+    """what the k-space code uses: spin-up / spin-down blocks plus, only if has_soc, Ham_SOC (on the merged R-set)"""
+    import io, contextlib
+    with contextlib.redirect_stdout(io.StringIO()):
+        sr = soc.get_system_R()
+    H = sr.get_R_mat("Ham")
+    if not soc.has_soc:
+        H = H.copy()
+        from wannierberri.fourier.rvectors import merge_Rvectors
+        _, maps = merge_Rvectors([soc.rvec, soc.system_up.rvec, soc.system_down.rvec])
+        H[maps[0]] = H[maps[0]] - soc.get_R_mat("Ham_SOC")
+    return sr.rvec.iRvec, H
+
+
+def case_soc(rec, nspin, norb, lat, theta, phi):
+    fs, g = install(ORDERS8, shared=True)
+    soc, vals = mk_soc(nspin, norb, lat, theta, phi)
+    iR_ref, H_ref = soc_hamiltonian(soc)
+
+    def body(rec):
+        g.calls = 0
+        fs.files.clear()
+        rec.witness = lambda env: dict(fmt="soc", nspin=nspin, norb=norb, lat=lat, theta=theta, phi=phi, listing=g.decode(env), vals={k: env.arr(np.asarray(v, dtype=object)) for k, v in vals.items()})
+        soc.to_npz(DIR)
+        back = SOCM.SystemSOC.from_npz(DIR)
+        rec.concrete("soc npz: nspin, num_wann, iRvec, lattice", (back.nspin, int(back.num_wann)) == (nspin, 2 * norb) and np.array_equal(back.rvec.iRvec, soc.rvec.iRvec)
+                     and np.array_equal(np.asarray(back.real_lattice, dtype=float), LATTICES[lat]), f"nspin={back.nspin} num_wann={back.num_wann}", key="SystemSOC npz round trip changes nspin/num_wann/iRvec/lattice")
+        rec.concrete("soc npz: has_soc of the reloaded system", bool(back.has_soc) == bool(soc.has_soc), f"has_soc={back.has_soc} (saved system: {soc.has_soc})",
+                     key="SystemSOC npz round trip loses has_soc")
+        rec.concrete("soc npz: set of matrices", set(back._XX_R) == set(soc._XX_R), f"{sorted(back._XX_R)}", key="SystemSOC npz round trip: set of matrices differs")
+        for k in soc._XX_R:
+            if back.has_R_mat(k):
+                rec.eq(f"soc npz: {k}", back.get_R_mat(k), soc.get_R_mat(k), key=f"SystemSOC npz round trip: matrix {k} differs")
+        rec.eq("soc npz: wannier_centers_cart", back.wannier_centers_cart, soc.wannier_centers_cart, key="SystemSOC npz round trip: Wannier centres differ")
+        for name, a, b in (("system_up", soc.system_up, back.system_up), ("system_down", soc.system_down, back.system_down)):
+            rec.concrete(f"soc npz: {name} iRvec / matrices present", np.array_equal(a.rvec.iRvec, b.rvec.iRvec) and set(a._XX_R) == set(b._XX_R), key=f"SystemSOC npz round trip: {name} differs")
+            rec.eq(f"soc npz: {name} centres", b.wannier_centers_cart, a.wannier_centers_cart, key=f"SystemSOC npz round trip: {name} differs")
+            for k in a._XX_R:
+                if b.has_R_mat(k):
+                    rec.eq(f"soc npz: {name} {k}", b.get_R_mat(k), a.get_R_mat(k), key=f"SystemSOC npz round trip: {name} differs")
+        rec.concrete("soc npz: spin-down is spin-up for nspin=1", (back.system_down is back.system_up) == (nspin == 1), key="SystemSOC npz round trip: system_down identity")
+        rec.concrete("soc npz: cell", back.cell is not None and all(np.array_equal(np.asarray(back.cell[k]), soc.cell[k]) for k in soc.cell), f"{back.cell}", key="SystemSOC npz round trip: cell differs")
+        iR, H = soc_hamiltonian(back)
+        if np.array_equal(iR, iR_ref):
+            rec.eq("soc npz: assembled Hamiltonian H_up (+) H_down + [has_soc] Ham_SOC of the reloaded system", H, H_ref, key="SystemSOC npz round trip: assembled Hamiltonian differs (SOC dropped)")
+        else:
+            rec.concrete("soc npz: merged R-vectors", False, f"{iR.tolist()}", key="SystemSOC npz round trip: assembled Hamiltonian differs (SOC dropped)")
+    rec.explore(body)
+
+
 # ---------------------------------------------------------------------------------------------------- cases
 def cases(tier, seed):
     q = tier == "quick"
@@ -393,6 +484,8 @@ def cases(tier, seed):
                         dict(nw=nw, nR=nR, lat=lat, group=group, mats=mats, exclude=(), mode="orders8", structure=(nw == 2)), timeout=900))
     out.append(Case("npz nw=2 nR=3 directory of 5 property files + Ham, every listing order", case_npz,
                     dict(nw=2, nR=3, lat=0, group="E", mats=("Ham",), exclude=("is_phonon", "pointgroup"), mode="all"), timeout=900))
+    for nspin, norb, lat, th, ph in ((1, 1, 0, 0.7, 0.4), (2, 1, 1, 0.7, 0.4), (1, 2, 2, 0.3, 1.1), (2, 2, 0, 0.0, 0.0)) + (() if q else ((1, 3, 1, 1.2, 2.0), (2, 3, 2, 2.1, 0.5))):
+        out.append(Case(f"npz SystemSOC nspin={nspin} norb={norb} 8 listing orders", case_soc, dict(nspin=nspin, norb=norb, lat=lat, theta=th, phi=ph), timeout=900))
     if not q:
         for first in range(7):
             out.append(Case(f"npz nw=2 nR=3 full directory, every listing order starting with property file #{first}", case_npz,
@@ -401,6 +494,23 @@ def cases(tier, seed):
 
 
 # ---------------------------------------------------------------------------------------------------- replay
+def listing_glob(d, listing):
+    """replay only: glob whose results come in the listing order of the counterexample (the order is the input); names are mapped from the in-memory directory to d"""
+    listing = [[os.path.join(d, os.path.relpath(x, DIR)) for x in l] for l in listing]
+
+    class G:
+        n = 0
+
+        @staticmethod
+        def glob(p):
+            real = sorted(__import__("glob").glob(p))
+            l = listing[G.n] if G.n < len(listing) else real
+            G.n += 1
+            assert sorted(l) == real, (l, real)
+            return l
+    return G
+
+
 def replay(rec):
     """real files in a scratch directory, unshadowed real code, concrete doubles"""
     import tempfile, shutil, warnings, io, contextlib, traceback
@@ -435,7 +545,7 @@ def replay(rec):
     try:
         with contextlib.redirect_stdout(io.StringIO()):
             try:
-                nw = w["nw"]
+                nw = w.get("nw")
                 if w["fmt"] == "tb":
                     wcc = fill(w["wcc"]).real
                     mats = {k: fill(w[k]).astype(complex) for k in (("Ham", "AA") if w["aa"] else ("Ham",))}
@@ -483,19 +593,7 @@ def replay(rec):
                     s = concrete_system(wcc, mats)
                     d = os.path.join(tmp, "sys")
                     s.to_npz(d, exclude_properties=w["exclude"])
-                    listing = [[os.path.join(d, os.path.basename(x)) for x in l] for l in w["listing"]]
-
-                    class G:        # the listing order is the input of this replay
-                        n = 0
-
-                        @staticmethod
-                        def glob(p):
-                            real = sorted(__import__("glob").glob(p))
-                            l = listing[G.n] if G.n < len(listing) else real
-                            G.n += 1
-                            assert sorted(l) == real, (l, real)
-                            return l
-                    sr.glob = G
+                    sr.glob = listing_glob(d, w["listing"])
                     b = System_R.from_npz(d)
                     bad = []
                     if int(b.num_wann) != nw or not np.array_equal(b.rvec.iRvec, s.rvec.iRvec) or not np.array_equal(b.real_lattice, s.real_lattice):
@@ -512,8 +610,32 @@ def replay(rec):
                         if hasattr(s, k) and not (hasattr(b, k) and np.array_equal(np.asarray(getattr(b, k)), np.asarray(getattr(s, k)))):
                             bad.append(k)
                     return bool(bad), f"npz nw={nw} listing={[[os.path.basename(x) for x in l] for l in w['listing']]}: differing {bad}"
+                if w["fmt"] == "soc":
+                    import wannierberri.system.system_R as sr
+                    given = {k: fill(v) for k, v in w["vals"].items()}
+                    given = {k: (v.real if k.endswith("c") and len(k) == 2 else v.astype(complex)) for k, v in given.items()}
+                    soc, _ = mk_soc(w["nspin"], w["norb"], w["lat"], w["theta"], w["phi"], sym=False, given=given)
+                    _, H_ref = soc_hamiltonian(soc)
+                    d = os.path.join(tmp, "sys")
+                    soc.to_npz(d)
+                    sr.glob = listing_glob(d, w["listing"])
+                    b = SOCM.SystemSOC.from_npz(d)
+                    bad = []
+                    if bool(b.has_soc) != bool(soc.has_soc):
+                        bad.append(f"has_soc={b.has_soc} (saved: {soc.has_soc})")
+                    if b.nspin != soc.nspin or set(b._XX_R) != set(soc._XX_R) or any(not np.array_equal(b.get_R_mat(k), v) for k, v in soc._XX_R.items() if b.has_R_mat(k)):
+                        bad.append("nspin / SOC matrices")
+                    for nm, x, y in (("system_up", soc.system_up, b.system_up), ("system_down", soc.system_down, b.system_down)):
+                        if set(x._XX_R) != set(y._XX_R) or any(not np.array_equal(y.get_R_mat(k), v) for k, v in x._XX_R.items() if y.has_R_mat(k)) or not np.array_equal(x.wannier_centers_cart, y.wannier_centers_cart):
+                            bad.append(nm)
+                    _, H = soc_hamiltonian(b)
+                    if H.shape != H_ref.shape or np.abs(H - H_ref).max() > 1e-12 * (1 + np.abs(H_ref).max()):
+                        bad.append(f"assembled Hamiltonian differs by {np.abs(H - H_ref).max() if H.shape == H_ref.shape else 'shape'}")
+                    return bool(bad), f"SystemSOC npz round trip nspin={w['nspin']} norb={w['norb']}: differing {bad}"
             except (KeyError, AttributeError, ValueError, AssertionError, TypeError, IndexError, FileNotFoundError, RuntimeError) as e:
-                return True, (f"{w['fmt']} {({k: v for k, v in w.items() if k in ('nw', 'nR', 'aa', 'conv', 'give_wcc', 'berry', 'full', 'listing')})}: raises {type(e).__name__}: {e} "
+                if not any("wannierberri" in fr.filename for fr in traceback.extract_tb(e.__traceback__)):
+                    raise          # an error of this replay code, not of the code under test
+                return True, (f"{w['fmt']} {({k: v for k, v in w.items() if k in ('nw', 'nR', 'aa', 'conv', 'give_wcc', 'berry', 'full', 'listing', 'nspin', 'norb')})}: raises {type(e).__name__}: {e} "
                               f"[{traceback.format_exc().strip().splitlines()[-3].strip()}]")
     finally:
         shutil.rmtree(tmp, ignore_errors=True)
